@@ -241,3 +241,39 @@ def compare(ex, geo, grid, blockmap, S, P):
             obs = ex.horizontal_obligations(k, a, b, vals, centres[(k, a)], centres[(k, b)])
         for ob in obs: P(ob, where)
     return '%d blocks %d connections' % (len(got_blocks), len(got_cons))
+
+
+def attach_boundary(T, np_, geo, grid, where, bvol, inp, nx, ny):
+    """Attach inactive boundary blocks (volume bvol) to a grid made from a rectangular
+    geometry: 'side' = one block beside every block of the x-max face (direction 1),
+    'top' = one block on top of the top block of every column (direction 3).
+    Used by the C18 check and its replay (same code, symbolic or concrete numbers)."""
+    rock = grid.rocktypelist[0]
+    dxl = inp['dx'][-1]
+    n = 0
+    if where == 'side':
+        for lay in geo.layerlist[1:]:
+            for j in range(ny):
+                col = geo.columnlist[j * nx + nx - 1]
+                name = geo.block_name(lay.name, col.name)
+                if name not in grid.block: continue
+                blk = grid.block[name]
+                n += 1
+                centre = np_.array([blk.centre[0] + dxl / 2 + 0.5, blk.centre[1], blk.centre[2]])
+                b = T.t2block('bd%3d' % n, bvol, rock, centre=centre)
+                grid.add_block(b)
+                grid.add_connection(T.t2connection([blk, b], 1, [dxl / 2, 0.5], inp['dy'][j] * (lay.top - lay.bottom), 0.))
+    elif where == 'top':
+        for col in geo.columnlist:
+            blk = None
+            for lay in geo.layerlist[1:]:
+                name = geo.block_name(lay.name, col.name)
+                if name in grid.block: blk = grid.block[name]; break
+            if blk is None: continue
+            n += 1
+            centre = np_.array([blk.centre[0], blk.centre[1], blk.centre[2] + 1000])
+            b = T.t2block('tp%3d' % n, bvol, rock, centre=centre)
+            grid.add_block(b)
+            grid.add_connection(T.t2connection([blk, b], 3, [0.25, 0.5], col.area, -1.))
+    else:
+        raise KeyError(where)
